@@ -1399,3 +1399,33 @@ def scope_constructors(F):
             out.add(p_)
     out.add('core::Env::with_parent')
     return out
+
+
+def try_body_scope(F):
+    """evaluate(Expr::Try): -> (ok, detail, loc). ok when the try body is evaluated in the enclosing environment (the function's own
+    `env` parameter) and only the catch clause uses a child scope - the model freeze (C17) and the scoping rules (C05) assume."""
+    fn = 'eval::evaluate'
+    if not F.has_fn(fn):
+        return None, 'evaluate missing', None
+    eb = F.body(fn)
+    me = find_match(F, fn, r'core::Expr\b', min_arms=30)
+    regn = set()
+    for i, a in enumerate(me['arms']):
+        if any(p_ == 'core::Expr::Try' for p_ in pat_paths(a['pat'])):
+            regn |= arm_region(F, eb, me, i)
+    if not regn:
+        return None, 'Expr::Try arm missing', None
+    evs = [c for c in eb.calls_in(regn) if c.target == fn and len(c.args) > 1]
+    body_ev = []
+    for c in evs:
+        og = origins(eb, c.args[1], passthru=('deref', 'as_ref', 'borrow'))
+        # the try body is field 0 of the Try node
+        if any(o[0] == 'payload' and o[1] == 'Try' and str(o[4]).startswith('f0') for o in og):
+            body_ev.append(c)
+    if not body_ev:
+        return None, 'evaluation of the try body not found', None
+    for c in body_ev:
+        eo = origins(eb, c.args[0], passthru=('deref', 'as_ref', 'borrow'))
+        if not eo or not all(o[0] == 'param' and o[1] == 'env' for o in eo):
+            return False, 'the try body is evaluated in %s' % sorted(str(o[:2]) for o in eo), c.loc()
+    return True, 'try body in the enclosing environment, catch clause in a child scope', body_ev[0].loc()
